@@ -234,11 +234,12 @@ class ResolveAnchorIds(Transform):
                 labelid = node["names"][0]
             if (
                 node.tagname == "footnote"
-                or "refuri" in node
+                or (isinstance(node, nodes.target) and "refuri" in node)
                 or node.tagname.startswith("desc_")
             ):
                 # ignore footnote labels, labels automatically generated from a
                 # link and object descriptions
+                # (but not a link that was given an id: ``[text](url){#id}``)
                 continue
 
             implicit_title = None
